@@ -518,6 +518,63 @@ def equiv_global_sigs():
             ps, dfl = next(iter(v))
             _gsigs[('any', k)] = list(ps)
             _gsigs[('defaults', 'any', k)] = dict(dfl)
+    # compiled kernels: `def name(typed parameters):` of the .pyx sources, when every definition of that name has the same parameter
+    # names (and no defaults that differ); read from the current tree - a kernel whose parameters were renamed is a different matter
+    # and is decided by the binding rules, not here
+    try:
+        import re as _re
+        from .report import REPO
+        kseen = {}
+        for root, _, files in os.walk(os.path.join(REPO, 'compmech')):
+            for f in files:
+                if not f.endswith('.pyx'):
+                    continue
+                src = open(os.path.join(root, f), encoding='utf-8', errors='replace').read()
+                for mm in _re.finditer(r'^def\s+(\w+)\s*\(', src, _re.M):
+                    name = mm.group(1)
+                    depth, j = 1, mm.end()
+                    while j < len(src) and depth:
+                        depth += src[j] in '([' 
+                        depth -= src[j] in ')]'
+                        j += 1
+                    body = src[mm.end():j - 1]
+                    parts, cur, dep = [], '', 0
+                    for ch in body:
+                        if ch in '([':
+                            dep += 1
+                        elif ch in ')]':
+                            dep -= 1
+                        if ch == ',' and dep == 0:
+                            parts.append(cur)
+                            cur = ''
+                        else:
+                            cur += ch
+                    if cur.strip():
+                        parts.append(cur)
+                    names, dfl = [], []
+                    ok = True
+                    for pt in parts:
+                        pt = pt.strip()
+                        if not pt or pt.startswith('*'):
+                            ok = False
+                            break
+                        left, _, default = pt.partition('=')
+                        ident = _re.findall(r'[A-Za-z_]\w*', left)
+                        if not ident:
+                            ok = False
+                            break
+                        names.append(ident[-1])
+                        if default.strip():
+                            dfl.append((ident[-1], default.strip()))
+                    kseen.setdefault(name, set()).add((tuple(names), tuple(dfl)) if ok else None)
+        for k, v in kseen.items():
+            if len(v) == 1 and None not in v and ('any', k) not in _gsigs and k not in seen:
+                ps, dfl = next(iter(v))
+                if not dfl:
+                    _gsigs[('any', k)] = list(ps)
+                    _gsigs[('defaults', 'any', k)] = {}
+    except Exception:
+        pass
     return _gsigs
 
 
